@@ -126,7 +126,12 @@ class TailProc(desper.Processor):
     def process(self, dt):
         envx = self.envx
         if envx.armed is not None:
-            raise HarnessError(f'request {envx.armed} was never issued')
+            # the frame reached its last processor but neither the on_update
+            # callback nor the coroutine of the processed world ran: the loop
+            # is processing a world that is not the live, enabled target
+            envx.stalled = (envx.frame, self.world.vlabel, envx.armed,
+                            self.world.dispatch_enabled)
+            raise desper.Quit()
         envx.log.append(('tail', self.world.vlabel, envx.frame))
 
 
@@ -175,6 +180,7 @@ def run_case(case):
     envx.current = None
     envx.last_left = None
     envx.probes = 0
+    envx.stalled = None
     envx.handles = {n: LabHandle(envx, n) for n in names}
 
     def clock():
@@ -219,6 +225,15 @@ def judge(case, envx):
                 raise Violation('one_process_per_frame', f'{case}: {r}')
             pos_process[r[2]] = (i, r[1])
     req_pos = [i for i, r in enumerate(log) if r[0] == 'request']
+    if envx.stalled is not None:
+        frame, label, req, enabled = envx.stalled
+        raise Violation(
+            'entered_world_runs_normally',
+            f'{case}: in frame {frame} the loop processed {label} '
+            f'(dispatch_enabled={enabled}) but its on_update callback / '
+            f'coroutine never ran, so request {req} could not be issued: the '
+            f'world being processed is not the live instance of the target',
+            world_enabled=bool(enabled), source=req[3])
     if len(req_pos) != len(script):
         raise HarnessError(f'{case}: {len(req_pos)} requests logged')
     cached = {n: (f'{n}#1' if preload else None) for n in names}
